@@ -23,6 +23,23 @@ type VerifC43Managers struct {
 	vx *vxlanManager
 	ii *ipipManager
 	ne *noEncapManager
+	// IPv6 instances (nil unless built by VerifC43NewDualManagers)
+	vx6 *vxlanManager
+	ne6 *noEncapManager
+}
+
+// VerifC43NewDualManagers additionally builds the IPv6 VXLAN and no-encap managers, writing to rt6.
+func VerifC43NewDualManagers(rt, rt6 routetable.Interface, hostname string, parentDevice string) *VerifC43Managers {
+	m := VerifC43NewManagers(rt, hostname, parentDevice)
+	cfg := m.vx.dpConfig
+	op := logrusr.NewSummarizer("verif-c43-v6")
+	m.vx6 = newVXLANManagerWithShims(dpsets.NewMockIPSets(), rt6, verifC43FDB{}, "vxlan-v6.calico", 6, 1430, cfg, op, nil)
+	m.ne6 = newNoEncapManagerWithSims(rt6, 6, cfg, op, nil)
+	if parentDevice != "" {
+		m.vx6.routeMgr.OnParentDeviceUpdate(parentDevice)
+		m.ne6.routeMgr.OnParentDeviceUpdate(parentDevice)
+	}
+	return m
 }
 
 func VerifC43NewManagers(rt routetable.Interface, hostname string, parentDevice string) *VerifC43Managers {
@@ -53,6 +70,10 @@ func (m *VerifC43Managers) OnUpdate(msg any) {
 	m.vx.OnUpdate(msg)
 	m.ii.OnUpdate(msg)
 	m.ne.OnUpdate(msg)
+	if m.vx6 != nil {
+		m.vx6.OnUpdate(msg)
+		m.ne6.OnUpdate(msg)
+	}
 }
 
 func (m *VerifC43Managers) CompleteDeferredWork() error {
@@ -62,5 +83,14 @@ func (m *VerifC43Managers) CompleteDeferredWork() error {
 	if err := m.ii.CompleteDeferredWork(); err != nil {
 		return err
 	}
-	return m.ne.CompleteDeferredWork()
+	if err := m.ne.CompleteDeferredWork(); err != nil {
+		return err
+	}
+	if m.vx6 != nil {
+		if err := m.vx6.CompleteDeferredWork(); err != nil {
+			return err
+		}
+		return m.ne6.CompleteDeferredWork()
+	}
+	return nil
 }
